@@ -103,17 +103,20 @@ PROPS = {
     ),
     "C19": dict(
         pkg="c19", level="exploration",
-        tests=[T("TestC19", Q(50000), Q(200000, timeout=900, shards=8))],
+        tests=[T("TestC19", Q(50000), Q(200000, timeout=900, shards=8)),
+               T("TestC19Engine", Q(12, timeout=400, shards=2, shrinktime="20s"), Q(60, timeout=1500, shards=8, shrinktime="60s"))],
         rule="Per shard (1-3 shards) a consistent world is drawn (term -> at most one leader, config-change index -> one membership, as Raft guarantees) and 1-8 updates sampled from it "
              "(incl. 'leader unknown' at any term, stale terms); the multiset is delivered to the real view in two independent random orders with duplicates, split into batches of 1-4, "
              "a third of the batches routed through an intermediate view's LocalState -> JSON -> MergeRemoteState. Oracle: both final views == model (max-term leader, max-CCI membership); after every "
              "delivery the retained leader's term never decreases and is never replaced by 'no leader'. Non-trivial iff some shard saw >=3 distinct terms AND a no-leader update at or above the "
-             "retained leader's term. Distinct = sha256 of case JSON.",
+             "retained leader's term. TestC19Engine (consequence clause, real wiring): a real 3-node regatta cluster in one process (three storage.Engine instances, one metadata raft group, the table replicated on all nodes, raft + memberlist gossip over loopback); "
+             "6-30 actions: Put/Range on any node (response headers recorded), leadership transfers of the table shard, node restarts, pauses. Oracle: per node the term reported for the shard never decreases over its responses, shard and replica id of the header are right, one term is never reported with two leaders, "
+             "and once quiet every node reports the shard's actual (term, leader) as raft knows it (time budget 30 s -> inconclusive). Non-trivial iff headers of >=2 terms were observed. Distinct = sha256 of case JSON.",
         assumptions=["updates come from a consistent Raft world (one leader per term, one membership per config-change index)",
                      "view accessed through the add-only verif hook storage/cluster/export_verif.go"],
         technique="property-based testing of algebraic laws (commutativity, associativity, idempotence of merge) + monotonicity invariant over the delivery history",
         level_text="Randomised exploration of update multisets and delivery orders against a max-term/max-CCI model, 5*10^4 cases per quick run.",
-        level_note="Trusted: the consistent-world generator reflects Raft's guarantees; memberlist transport itself is not exercised.",
+        level_note="Trusted: the consistent-world generator reflects Raft's guarantees; dragonboat reports (term, leader) pairs consistently.",
     ),
     "C13": dict(
         pkg="c13", level="exploration",
